@@ -64,6 +64,9 @@ def qBookmark : Str := [116, 101, 120, 116, 58, 98, 111, 111, 107, 109, 97, 114,
 def qBookmarkStart : Str := [116, 101, 120, 116, 58, 98, 111, 111, 107, 109, 97, 114, 107, 45, 115, 116, 97, 114, 116]  -- text:bookmark-start
 def qBookmarkEnd : Str := [116, 101, 120, 116, 58, 98, 111, 111, 107, 109, 97, 114, 107, 45, 101, 110, 100]  -- text:bookmark-end
 def qBookmarkRef : Str := [116, 101, 120, 116, 58, 98, 111, 111, 107, 109, 97, 114, 107, 45, 114, 101, 102]  -- text:bookmark-ref
+def qListHeader : Str := [116, 101, 120, 116, 58, 108, 105, 115, 116, 45, 104, 101, 97, 100, 101, 114]  -- text:list-header
+def qHeaderRows : Str := [116, 97, 98, 108, 101, 58, 116, 97, 98, 108, 101, 45, 104, 101, 97, 100, 101, 114, 45, 114, 111, 119, 115]  -- table:table-header-rows
+def qSoftPageBreak : Str := [116, 101, 120, 116, 58, 115, 111, 102, 116, 45, 112, 97, 103, 101, 45, 98, 114, 101, 97, 107]  -- text:soft-page-break
 def qSection : Str := [116, 101, 120, 116, 58, 115, 101, 99, 116, 105, 111, 110]  -- text:section
 
 /-- the supported vocabulary with its (start handler, end handler) -/
@@ -115,7 +118,10 @@ def vocabulary : List (Str × Option HName × Option HName) := [
   (qBookmarkStart, some .s_text_bookmark, none),
   (qBookmarkEnd, none, none),
   (qBookmarkRef, some .s_text_bookmark_ref, some .e_text_a),
-  (qSection, none, none)
+  (qSection, none, none),
+  (qListHeader, none, none),
+  (qHeaderRows, none, none),
+  (qSoftPageBreak, none, none)
 ]
 
 /-- **tie to the source**: the handler pairs of the supported vocabulary, read off the dispatch dict of a live
@@ -465,6 +471,13 @@ theorem txt_bookmark_end (b c : Bool) (a : Attrs) : Txt b c c (.elem qBookmarkEn
   .transparent b c c qBookmarkEnd a [] (disp (by decide)) (.nil b c)
 theorem txt_section (b c c' : Bool) (a : Attrs) (kids : List Node) (h : TxtL b c c' kids) : Txt b c c' (.elem qSection a kids) :=
   .transparent b c c' qSection a kids (disp (by decide)) h
+/-- elements without handler: their children are walked as if they stood in the parent -/
+theorem txt_list_header (b c c' : Bool) (a : Attrs) (kids : List Node) (h : TxtL b c c' kids) : Txt b c c' (.elem qListHeader a kids) :=
+  .transparent b c c' qListHeader a kids (disp (by decide)) h
+theorem txt_header_rows (b c c' : Bool) (a : Attrs) (kids : List Node) (h : TxtL b c c' kids) : Txt b c c' (.elem qHeaderRows a kids) :=
+  .transparent b c c' qHeaderRows a kids (disp (by decide)) h
+theorem txt_soft_page_break (b c : Bool) (a : Attrs) : Txt b c c (.elem qSoftPageBreak a []) :=
+  .transparent b c c qSoftPageBreak a [] (disp (by decide)) (.nil b c)
 theorem txt_covered (b c : Bool) (a : Attrs) (kids : List Node) : Txt b c c (.elem qCovered a kids) :=
   .ignored b c qCovered a kids none (disp (by decide))
 theorem txt_note (c : Bool) (a ac ab : Attrs) (label : List Str) (kids : List Node) (h : TxtL true true true kids) :
@@ -475,13 +488,17 @@ theorem txt_note (c : Bool) (a ac ab : Attrs) (label : List Str) (kids : List No
 
 mutual
 /-- `Block b n`: an element that stands where ODF allows no character data — a paragraph or heading (with paragraph
-    content), or an element-only container (list, list item, table, row, cell, section, text box, slide) whose children are
+    content), or an element-only container (list, list header, list item, table, header rows, row, cell, section, text box,
+    slide) whose children are
     `Block` again, or a column / covered cell / image.  `b` = inside a note body. -/
 inductive Block : Bool → Node → Prop
   | p (b a kids) : (∀ k ∈ kids, Inline b k) → Block b (.elem qP a kids)
   | h (b a kids lvl) : headingLevel a = .ok lvl → (∀ k ∈ kids, Inline b k) → Block b (.elem qH a kids)
   | list (b a kids) : (∀ k ∈ kids, Block b k) → Block b (.elem qList a kids)
   | listItem (b a kids) : (∀ k ∈ kids, Block b k) → Block b (.elem qListItem a kids)
+  | listHeader (b a kids) : (∀ k ∈ kids, Block b k) → Block b (.elem qListHeader a kids)
+  | headerRows (b a kids) : (∀ k ∈ kids, Block b k) → Block b (.elem qHeaderRows a kids)
+  | softPageBreak (b a) : Block b (.elem qSoftPageBreak a [])
   | table (b a kids) : (∀ k ∈ kids, Block b k) → Block b (.elem qTable a kids)
   | row (b a kids) : (∀ k ∈ kids, Block b k) → Block b (.elem qRow a kids)
   | cell (b a kids) : (∀ k ∈ kids, Block b k) → Block b (.elem qCell a kids)
@@ -505,6 +522,7 @@ inductive Inline : Bool → Node → Prop
   | bookmark (b a v) : a.lookup kName = some v → Inline b (.elem qBookmark a [])
   | bookmarkStart (b a v) : a.lookup kName = some v → Inline b (.elem qBookmarkStart a [])
   | bookmarkEnd (b a) : Inline b (.elem qBookmarkEnd a [])
+  | softPageBreak (b a) : Inline b (.elem qSoftPageBreak a [])
   | frame (b a kids) : (∀ k ∈ kids, Block b k) → Inline b (.elem qFrame a kids)
   | note (a ac ab) (label : List Str) (kids) : (∀ k ∈ kids, Block true k) →
       Inline false (.elem qNote a [.elem qCitation ac (label.map Node.text), .elem qNoteBody ab kids])
@@ -541,6 +559,9 @@ theorem block_txt (n : Node) (b : Bool) (h : Block b n) : Txt b true true n := b
     exact txt_h b c2 a kids lvl hl h2
   | list _ a kids hk => exact txt_list b true a kids (txtL_of_blocks b kids (fun k hm => block_txt k b (hk k hm)))
   | listItem _ a kids hk => exact txt_list_item b true a kids (txtL_of_blocks b kids (fun k hm => block_txt k b (hk k hm)))
+  | listHeader _ a kids hk => exact txt_list_header b true true a kids (txtL_of_blocks b kids (fun k hm => block_txt k b (hk k hm)))
+  | headerRows _ a kids hk => exact txt_header_rows b true true a kids (txtL_of_blocks b kids (fun k hm => block_txt k b (hk k hm)))
+  | softPageBreak _ a => exact txt_soft_page_break b true a
   | table _ a kids hk => exact txt_table b true a kids (txtL_of_blocks b kids (fun k hm => block_txt k b (hk k hm)))
   | row _ a kids hk => exact txt_row b true a kids (txtL_of_blocks b kids (fun k hm => block_txt k b (hk k hm)))
   | cell _ a kids hk => exact txt_cell b true a kids (txtL_of_blocks b kids (fun k hm => block_txt k b (hk k hm)))
@@ -572,6 +593,7 @@ theorem inline_txt (n : Node) (b c : Bool) (h : Inline b n) : ∃ c', Txt b c c'
   | bookmark _ a v hv => exact ⟨true, txt_bookmark b c a v hv⟩
   | bookmarkStart _ a v hv => exact ⟨true, txt_bookmark_start b c a v hv⟩
   | bookmarkEnd _ a => exact ⟨c, txt_bookmark_end b c a⟩
+  | softPageBreak _ a => exact ⟨c, txt_soft_page_break b c a⟩
   | frame _ a kids hk => exact ⟨true, txt_frame b c true a kids (txtL_of_blocks b kids (fun k hm => block_txt k b (hk k hm)))⟩
   | note a ac ab label kids hk =>
     exact ⟨true, txt_note c a ac ab label kids (txtL_of_blocks true kids (fun k hm => block_txt k true (hk k hm)))⟩
